@@ -271,13 +271,94 @@ def _close(a, b, approx):
     return False
 
 
+# ------------------------------------------------------------------ operation sweep: every public operation x every container
+def _sweep_canon(r, kind=None):
+    if isinstance(r, dict):
+        return {str(a): [int(x) for x in b] for a, b in r.items()}
+    if isinstance(r, (pl.Series, pl.DataFrame)):
+        r = r.to_pandas()
+    if isinstance(r, pd.DataFrame):
+        return [_sweep_canon(r[c], kind) for c in r.columns]
+    def lab(x):
+        if isinstance(x, tuple):
+            return tuple(lab(y) for y in x)
+        if isinstance(x, str) and x == "All":
+            return "All"
+        if kind is None or isinstance(x, (int, np.integer)) and kind not in ("int",):
+            return str(x)
+        return str(api.label_to_rank(x, kind))
+    return ([lab(x) for x in r.index.tolist()], [None if pd.isna(x) else round(float(x), 9) for x in r.tolist()])
+
+
+def sweep_stream(res, rng, tier, GroupBy):
+    """One fixed dataset; every public operation (also those the random stream does not draw: median, quantile, var / std, agg,
+    ratio, density, apply, ema, head / tail / nth, groups, rolling sums, margins, transform, observed_only=False) is run with the
+    keys in every container x key kind and with the values in every container, and compared with the pandas-key / NumPy-value call."""
+    col = [1, 0, 1, None, 2, 0, 1]
+    v = np.array([1., 2, 4, 8, 16, 32, 64])
+    m = np.array([True, True, False, True, True, True, True])
+    key_ops = {
+        "sum": lambda gb: gb.sum(v), "mean_margins": lambda gb: gb.mean(v, margins=True), "sum_transform": lambda gb: gb.sum(v, transform=True), "sum_mask": lambda gb: gb.sum(v, mask=m),
+        "median": lambda gb: gb.median(v), "quantile": lambda gb: gb.quantile(v, [0.25, 0.5]), "var": lambda gb: gb.var(v), "agg": lambda gb: gb.agg(v, ["sum", "max"]),
+        "cumsum": lambda gb: gb.cumsum(v), "cumcount": lambda gb: gb.cumcount(), "rolling_sum": lambda gb: gb.rolling_sum(v, 2, min_periods=1),
+        "rolling_by_groups": lambda gb: gb.rolling_max(v, 2, min_periods=1, index_by_groups=True), "shift": lambda gb: gb.shift(v, 1), "ema": lambda gb: gb.ema(v, alpha=0.5),
+        "head": lambda gb: gb.head(v, 1), "tail": lambda gb: gb.tail(v, 1), "nth": lambda gb: gb.nth(v, 1), "size": lambda gb: gb.size(), "groups": lambda gb: gb.groups,
+        "apply_vec": lambda gb: gb.apply(v, lambda x: np.array([x.min(), x.max()])), "ratio": lambda gb: gb.ratio(v, v * 2), "density": lambda gb: gb.density(),
+        "first_all_labels": lambda gb: gb.first(v, observed_only=False),
+    }
+    for kind in ["str", "float", "dt", "dttz", "date"]:
+        ref = {}
+        for cont in ["pandas", "numpy", "polars", "arrow", "arrow_chunked", "pandas_arrow", "index"]:
+            for name, f in key_ops.items():
+                case = dict(stream="sweep-keys", key_kind=kind, key_container=cont, op=name, keys=col)
+                res.note_case(repr(case), True)
+                res.count("sweep", "keys")
+                try:
+                    r = _sweep_canon(f(GroupBy(api.make_key(col, kind, cont, chunks=[3, 4]))), kind)
+                except Exception as e:  # noqa: BLE001
+                    r = "raised " + type(e).__name__ + ": " + str(e)[:80]
+                if cont == "pandas":
+                    ref[name] = r
+                elif r != ref[name]:
+                    res.violations.append(dict(sig=dict(stream="sweep-keys", what="differs-from-pandas-key", op=name, key_kind=kind, key_container=cont), case=case, observed=str(r)[:300], expected=str(ref[name])[:300],
+                                               what=f"{name} with a {kind} key in {cont} differs from the same key as a pandas Series"))
+    k = np.array([1, 0, 1, -5, 2, 0, 1])
+    vals = [1.0, None, 4.0, 8.0, 16.0, 32.0, 64.0]
+    val_ops = {
+        "median": lambda gb, x: gb.median(x), "quantile": lambda gb, x: gb.quantile(x, [0.25, 0.5]), "var": lambda gb, x: gb.var(x), "std_transform": lambda gb, x: gb.std(x, transform=True),
+        "agg": lambda gb, x: gb.agg(x, ["sum", "max"]), "rolling_sum": lambda gb, x: gb.rolling_sum(x, 2, min_periods=1), "rolling_mean_mask": lambda gb, x: gb.rolling_mean(x, 2, min_periods=1, mask=m),
+        "diff": lambda gb, x: gb.diff(x, 1), "ema": lambda gb, x: gb.ema(x, alpha=0.5), "head": lambda gb, x: gb.head(x, 1), "tail": lambda gb, x: gb.tail(x, 2), "nth": lambda gb, x: gb.nth(x, 1),
+        "apply": lambda gb, x: gb.apply(x, np.nanmax), "ratio": lambda gb, x: gb.ratio(x, x), "sum_margins": lambda gb, x: gb.sum(x, margins=True), "mean_transform": lambda gb, x: gb.mean(x, transform=True),
+        "cumsum_noskip": lambda gb, x: gb.cumsum(x, skip_na=False), "last_mask": lambda gb, x: gb.last(x, mask=m),
+    }
+    for dt in ["f8", "i8"]:
+        vv = [(x if x is not None else (None if dt == "f8" else 3)) for x in vals]
+        vv = [None if x is None else (x if dt == "f8" else int(x)) for x in vv]
+        ref = {}
+        for cont, chunks in [("numpy", None), ("pandas", None), ("polars", None), ("arrow", None), ("arrow_chunked", [2, 5]), ("arrow_chunked", [4, 1, 2]), ("pandas_arrow", None)]:
+            for name, f in val_ops.items():
+                case = dict(stream="sweep-values", value_dtype=dt, value_container=cont, chunks=chunks, op=name, values=vv)
+                res.note_case(repr(case), True)
+                res.count("sweep", "values")
+                try:
+                    r = _sweep_canon(f(GroupBy(k), api.make_values(vv, dt, cont, chunks=chunks)))
+                except Exception as e:  # noqa: BLE001
+                    r = "raised " + type(e).__name__ + ": " + str(e)[:80]
+                if cont == "numpy":
+                    ref[name] = r
+                elif r != ref[name]:
+                    res.violations.append(dict(sig=dict(stream="sweep-values", what="differs-from-numpy-values", op=name, value_dtype=dt, value_container=cont), case=case, observed=str(r)[:300],
+                                               expected=str(ref[name])[:300], what=f"{name} with {dt} values in {cont} differs from the same values as a NumPy array"))
+
+
 def run(res, tier="quick", seed=0, widen=False):
     from groupby_lib import GroupBy
     rng = random.Random(seed * 53 + 12 + (1 if widen else 0))
     n_cases = 3000 if tier == "quick" else 30000
     res.rule = ("seeded random logical datasets (2-16 rows, one key of six kinds with nulls) x 7 key containers x 6 value containers (pyarrow chunk boundaries arbitrary and "
                 "misaligned) x 15 value dtypes (float64/32, int64/32/8, uint8, bool, timedelta and datetime in ns/us/s, tz-aware) x 15 operations; each case compared with the "
-                "NumPy/NumPy reference; selection-type results: dtype kept and values are input elements; integer sums exact; non-trivial: container differs from the reference; distinct = canonical case")
+                "NumPy/NumPy reference; selection-type results: dtype kept and values are input elements; integer sums exact; plus an operation sweep on a fixed dataset: every public operation (median, quantile, var, agg, ratio, density, apply, ema, head/tail/nth, groups, rolling sums, margins, transform, all labels) x every key container x five key kinds, and x every value container; non-trivial: container differs from the reference; distinct = canonical case")
+    sweep_stream(res, rng, tier, GroupBy)
     for ci in range(n_cases):
         c = gen_case(rng, tier)
         res.note_case(repr(c), c["kcont"] != "numpy" or c["vcont"] != "numpy")
